@@ -345,3 +345,85 @@ Proof.
   split; [intro lo; reflexivity|]. split; [intros i hi; cbn -[Z.ltb]; destruct (i <? hi); reflexivity|].
   split; [intro i; reflexivity|]. do 2 eexists. split; [reflexivity|]. intro i. reflexivity.
 Qed.
+
+(* ------------------------------------------------------------------ parallel_foreach *)
+(* iterator overload at ITERATOR_T = unsigned char*: begin = base, end = base + d (d elements) *)
+Record fe_view := { fv_count : Z; fv_decls : list (string * string); fv_calls : list (string * string);
+                    fv_args : list (string * list ex); fv_lam_params : list (string * string); fv_elem : Z -> Z }.
+Definition foreach_src (base d : Z) : fe_view :=
+  let s := exec [("begin", base); ("end", base + d); ("&*begin", base)] (f_body src_foreach_iter) in
+  let arg := match top_calls (f_body src_foreach_iter) with
+             | [(_, [a; _])] => eval s a
+             | _ => -1
+             end in
+  {| fv_count := arg; fv_decls := decl_types (f_body src_foreach_iter);
+     fv_calls := top_call_sigs (f_body src_foreach_iter); fv_args := top_calls (f_body src_foreach_iter);
+     fv_lam_params := f_params src_foreach_iter_lambda0;
+     fv_elem := fun i => match f_body src_foreach_iter_lambda0 with
+                         | [Exp (Call g _ [e])] => if String.eqb g "call f" then eval (("i", wrap U64 i) :: s) e else -1
+                         | _ => -1
+                         end |}.
+(* the elements f is applied to: parallel_for<size_t>(count, i => f(v[i])) runs i over [0, count) *)
+Definition foreach_src_addrs (base d : Z) : list Z :=
+  let v := foreach_src base d in map (fv_elem v) (zrange 0 (fv_count v)).
+
+Lemma wrapU64 z : 0 <= z < 18446744073709551616 -> wrap U64 z = z.
+Proof. intro H. apply wrap_fits; [reflexivity|congruence|]. unfold fits, tmin, tmax. cbn. lia. Qed.
+
+Lemma foreach_src_sem base d : 0 <= d < 18446744073709551616 ->
+  known (f_body src_foreach_iter) = true /\ known (f_body src_foreach_iter_lambda0) = true /\
+  fv_decls (foreach_src base d) = [("count", "const size_t"); ("v", "unsigned char *")] /\
+  fv_calls (foreach_src base d) = [("parallel_for", "void (unsigned long, LAMBDA &&)")] /\
+  fv_args (foreach_src base d) = [("parallel_for", [Var "count"; Var "LAMBDA#0"])] /\
+  fv_lam_params (foreach_src base d) = [("i", "size_t")] /\
+  fv_count (foreach_src base d) = d /\
+  foreach_src_addrs base d = foreach_addrs base 1 d.
+Proof.
+  intro Hd. assert (Hc : fv_count (foreach_src base d) = d).
+  { cbn -[wrap Z.add Z.sub]. replace (base + d - base) with d by lia. apply wrapU64; exact Hd. }
+  split; [vm_compute; reflexivity|]. split; [vm_compute; reflexivity|].
+  split; [reflexivity|]. split; [reflexivity|]. split; [reflexivity|]. split; [reflexivity|].
+  split; [exact Hc|].
+  unfold foreach_src_addrs. rewrite Hc. unfold foreach_addrs. apply map_ext_in.
+  intros i Hi. apply In_zrange in Hi. cbn -[wrap Z.add Z.sub]. rewrite wrapU64 by lia. lia.
+Qed.
+
+(* container overload: forwards begin(c), end(c), f to the iterator overload *)
+Lemma foreach_container_src :
+  known (f_body src_foreach_container) = true /\
+  exists sig a b fw, f_body src_foreach_container = [Exp (Call "parallel_foreach" sig [Call "begin" a [Var "c"]; Call "end" b [Var "c"]; fw])].
+Proof. split; [vm_compute; reflexivity|]. do 4 eexists. reflexivity. Qed.
+
+(* what the narrowed variant (count held in an int) would request: the witnesses the check replays *)
+Lemma foreach_int_count_refuted :
+  wrap I32 (2147483648 + 5) < 0 /\ wrap I32 (4294967296 + 3) = 3 /\
+  foreach_addrs 0 1 (wrap I32 (2147483648 + 5)) = [].
+Proof. repeat split; vm_compute; reflexivity. Qed.
+
+(* ------------------------------------------------------------------ declared types of the count-like locals *)
+(* (a local narrower than INDEX_T, or a loop / lambda index of another type, would show here and in the
+   conversions the evaluator applies) *)
+Definition for_decl_types (f : func) : list (string * string) :=
+  match find_for (f_body f) with Some (init, _, _, _) => decl_types init | None => [] end.
+Lemma count_types_src :
+  (* parallel_in_blocks_of<1024>(unsigned) *)
+  hd ("", "") (f_params src_blocks_u32_1024) = ("nTasks", "unsigned int") /\
+  decl_types (f_body src_blocks_u32_1024) = [("numBlocks", "unsigned int")] /\
+  top_call_sigs (f_body src_blocks_u32_1024) = [("parallel_for", "void (unsigned int, LAMBDA &&)")] /\
+  f_params src_blocks_u32_1024_lambda0 = [("blockID", "unsigned int")] /\
+  decl_types (f_body src_blocks_u32_1024_lambda0) = [("begin", "unsigned int"); ("end", "unsigned int")] /\
+  (* parallel_in_blocks_of<4>(int) *)
+  hd ("", "") (f_params src_blocks_i32_4) = ("nTasks", "int") /\
+  decl_types (f_body src_blocks_i32_4) = [("numBlocks", "int")] /\
+  top_call_sigs (f_body src_blocks_i32_4) = [("parallel_for", "void (int, LAMBDA &&)")] /\
+  f_params src_blocks_i32_4_lambda0 = [("blockID", "int")] /\
+  decl_types (f_body src_blocks_i32_4_lambda0) = [("begin", "int"); ("end", "int")] /\
+  (* parallel_for_impl loops *)
+  for_decl_types src_impl_omp_int = [("taskIndex", "int")] /\
+  for_decl_types src_impl_omp_size_t = [("taskIndex", "unsigned long")] /\
+  for_decl_types src_impl_debug_int = [("taskIndex", "int")] /\
+  for_decl_types src_impl_debug_size_t = [("taskIndex", "unsigned long")] /\
+  (* internal backend *)
+  hd ("", "") (f_params src_parallel_for_internal) = ("nTasks", "int") /\
+  for_decl_types src_LocalTask_ExecuteRange = [("i", "uint32_t")].
+Proof. repeat (split; [vm_compute; reflexivity|]). vm_compute. reflexivity. Qed.
